@@ -3,6 +3,10 @@
 Model: Model/Join.lean (tables over dimension columns, natural join); theorems in Props/C06.lean (sat_join,
 query_exact: a combination is returned iff it is consistent with every contributing table;
 join_order_irrelevant; more_tables_fewer_rows).
+Model/Spatial.lean (the materialised common-skypix overlap tables under insert / skip_existing / replace / sync, the
+candidate join, Postprocessing.apply with its threaded limit over raw pages, materialize); theorems C06.Spatial.*
+(run_inv, query_exact_pairs, history_query_exact, same_records_same_answer, applyPages_spec, query_page_size_irrelevant,
+query_limit_prefix, materialize_read_back, run_exact, skip_existing_leaves_extra_rows).
 Tie: F + C — the dimension groups are enumerated from the live universe (every dependency-closed subset of its
 non-skypix dimensions) together with each element's required / implied / always-join / spatial-family metadata;
 for seeded record populations the tables that the rule "dimension tables + always-joined membership tables +
@@ -49,6 +53,7 @@ def run(ctx):
     with repo.Scratch("verif-c06-") as tmp:
         joins(ctx, built, tmp)
         big_join(ctx, built, tmp)
+        spatial_histories(ctx, built, tmp)
 
 
 def val(el, rec, dim):
@@ -339,6 +344,194 @@ def big_join(ctx, model_ok, tmp):
             ctx.broken.append(f"correspondence: big join: model returns {len(out.split(';'))} rows, implementation {len(impl.split(';'))}")
         ctx.extra["big_join_correspondence"] = out == impl
     del b
+
+
+def spatial_histories(ctx, model_ok, tmp):
+    """Histories of record operations on two spatial elements (visit, patch) against Model/Spatial.lean: after every call the
+    materialised overlap tables (read straight from the SQLite file) and the records are compared with the model's, and the
+    visit x patch query with the model's query and with the regions of the final records (sphgeom)."""
+    import sqlite3
+
+    from lsst import sphgeom
+    from lsst.daf.butler import Butler
+
+    rng = ctx.rng
+    pool = {}
+    rid = 0
+    for x in range(3):
+        for y in range(3):
+            rid += 1
+            pool[rid] = (x, y, x + 1, y + 1)
+    for x, y in ((0, 0), (1, 0), (1, 1), (2, 2)):
+        rid += 1
+        pool[rid] = (x + 0.2, y + 0.2, x + 0.8, y + 0.8)
+    pool[rid + 1] = (0, 0, 3, 3)
+    pool[rid + 2] = (40, 40, 41, 41)
+    polys = {r: dimpop.box(*v) for r, v in pool.items()}
+    u = Butler.get_known_repos  # noqa: F841  (keeps the import used)
+    n_hist = 6 if ctx.quick() else 60
+    disagreements = 0
+    lines_total = 0
+
+    def viol(what, key, replay):
+        ctx.violations.append(core.Violation(what=what, key=key, replay=replay))
+
+    for h in range(n_hist):
+        root = os.path.join(tmp, f"sp{h}")
+        Butler.makeRepo(root)
+        b = Butler.from_config(root, writeable=True)
+        reg = b.registry
+        pix = b.dimensions.commonSkyPix.pixelization
+        reg.insertDimensionData("instrument", {"name": "I"})
+        reg.insertDimensionData("physical_filter", {"instrument": "I", "name": "f", "band": "r"})
+        reg.insertDimensionData("day_obs", {"instrument": "I", "id": 20250101})
+        reg.insertDimensionData("skymap", {"name": "S", "hash": b"S" * 4, "tract_max": 2, "patch_nx_max": 10, "patch_ny_max": 10})
+        reg.insertDimensionData("tract", {"skymap": "S", "id": 0, "region": dimpop.box(0, 0, 3, 3)})
+        req, impl = ["sp new"], ["ok"]
+        for r, poly in polys.items():
+            px = sorted(i for b_, e_ in pix.envelope(poly) for i in range(b_, e_))
+            req.append(f"sp reg {r} {','.join(map(str, px))}"), impl.append("ok")
+        for r1, p1 in polys.items():
+            for r2, p2 in polys.items():
+                if not (p1.relate(p2) & sphgeom.DISJOINT):
+                    req.append(f"sp rel {r1} {r2}"), impl.append("ok")
+        req.append("sp geosound"), impl.append("ok")
+        final = {1: {}, 2: {}}  # the harness's own record of what each accepted call stored
+        ops = []
+
+        def record(el, k, r):
+            if el == 1:
+                return {"instrument": "I", "id": k, "name": f"v{k}", "physical_filter": "f", "day_obs": 20250101, "region": polys[r] if r else None}
+            return {"skymap": "S", "tract": 0, "id": k, "cell_x": k, "cell_y": 0, "region": polys[r] if r else None}
+
+        def overlap_rows(el):
+            con = sqlite3.connect(f"file:{root}/gen3.sqlite3?mode=ro", uri=True)
+            try:
+                name, col = ("visit_skypix_overlap", "visit") if el == 1 else ("patch_skypix_overlap", "patch")
+                rows = con.execute(f"SELECT {col}, skypix_index FROM {name}").fetchall()
+            finally:
+                con.close()
+            by = {}
+            for k, t in rows:
+                by.setdefault(k, set()).add(t)
+            return ";".join(f"{k}:" + ",".join(map(str, sorted(by[k]))) for k in sorted(by)) or "-"
+
+        def stored_records(el):
+            name = "visit" if el == 1 else "patch"
+            out = []
+            for rec in reg.queryDimensionRecords(name):
+                rr = "-"
+                if rec.region is not None:
+                    enc = rec.region.encode()
+                    rr = next((str(r) for r, p_ in polys.items() if p_.encode() == enc), "?")
+                out.append((rec.id, rr))
+            return ";".join(f"{k}:{r}" for k, r in sorted(out)) or "-"
+
+        # corpus (runs first): the witness of C06-a — a record kept by skip_existing must keep its overlap rows as they are
+        corpus = [(1, "ins", [(1, None), (2, 1)]), (2, "ins", [(1, 1), (2, 5)]), (1, "skip", [(1, 1), (2, 9), (3, 2)]), (2, "skip", [(2, 1)]),
+                  (1, "sync1", [(3, 2)])] if h == 0 else []
+        n_ops = len(corpus) if corpus else rng.randint(8, 18)
+        for step in range(n_ops):
+            el = rng.choice([1, 2])
+            kind = rng.choice(["ins", "ins", "skip", "skip", "repl", "sync0", "sync1", "sync1"])
+            nb = 1 if kind.startswith("sync") else rng.choice([1, 2, 3, 4])
+            keys = rng.sample(range(1, 8), nb)
+            if kind == "ins" and nb > 1 and rng.random() < 0.1:
+                keys[-1] = keys[0]
+            batch = [(k, rng.choice([None] + list(polys))) for k in keys]
+            if corpus:
+                el, kind, batch = corpus[step]
+                keys = [k for k, _ in batch]
+            name = "visit" if el == 1 else "patch"
+            if not corpus and kind == "skip" and final[el] and rng.random() < 0.6:
+                # offer an existing record with another region
+                k0 = rng.choice(sorted(final[el]))
+                if k0 not in keys:
+                    batch[0] = (k0, rng.choice([r for r in polys if r != final[el][k0]]))
+            if not corpus and kind.startswith("sync") and final[el] and rng.random() < 0.6:
+                k0 = rng.choice(sorted(final[el]))
+                batch = [(k0, rng.choice([final[el][k0], None] + list(polys)))]
+            spelled = ",".join(f"{k}:{r if r else '-'}" for k, r in batch)
+            recs = [record(el, k, r) for k, r in batch]
+            try:
+                if kind == "ins":
+                    reg.insertDimensionData(name, *recs)
+                    out = "ok"
+                elif kind == "skip":
+                    reg.insertDimensionData(name, *recs, skip_existing=True)
+                    out = "ok"
+                elif kind == "repl":
+                    reg.insertDimensionData(name, *recs, replace=True)
+                    out = "ok"
+                else:
+                    res = reg.syncDimensionData(name, recs[0], update=(kind == "sync1"))
+                    out = "inserted" if res is True else ("same" if res is False else "updated")
+            except Exception as e:
+                out = "conflict" if kind.startswith("sync") else "refused"
+                ctx.count(f"spatial-refused:{type(e).__name__}")
+            if kind.startswith("sync"):
+                req.append(f"sp sync {el} {spelled} {kind[-1]}")
+            else:
+                req.append(f"sp {kind} {el} {spelled}")
+            impl.append(out)
+            ops.append(f"{kind} {name} {spelled} -> {out}")
+            ctx.count(f"spatial-op:{kind}:{out}")
+            ctx.evaluations += 1
+            # the harness's own bookkeeping of the final records (model-free)
+            if out in ("ok", "inserted", "updated"):
+                for k, r in batch:
+                    if kind == "skip" and k in final[el]:
+                        if final[el][k] != r:
+                            ctx.count("spatial:skip-existing-other-region")
+                        continue
+                    final[el][k] = r
+            req.append(f"sp ov {el}"), impl.append(overlap_rows(el))
+            req.append(f"sp recs {el}"), impl.append(stored_records(el))
+            want_recs = ";".join(f"{k}:{r if r else '-'}" for k, r in sorted(final[el].items())) or "-"
+            if impl[-1] != want_recs:
+                viol(f"after {ops[-3:]}: the stored {name} records are {impl[-1]}, the accepted calls stored {want_recs}", f"sp-recs:{ops}", {"kind": "spatial-history", "ops": ops})
+                break
+            if step % 3 == 2 or step == n_ops - 1:
+                want = sorted((v, p_) for v, r1 in final[1].items() for p_, r2 in final[2].items()
+                              if r1 and r2 and not (polys[r1].relate(polys[r2]) & sphgeom.DISJOINT))
+                try:
+                    got = sorted({(d["visit"], d["patch"]) for d in b.query_data_ids(["visit", "patch"], explain=False, limit=None)})
+                except Exception as e:
+                    got = f"{type(e).__name__}: {str(e)[:100]}"
+                req.append("sp query 2000 -"), impl.append(";".join(f"{a}.{c}" for a, c in got) or "-" if isinstance(got, list) else "error")
+                if got != want:
+                    viol(f"after {ops[-4:]}: visit x patch returns {got if not isinstance(got, list) else len(got)} pairs, the final regions allow {len(want)}; "
+                         f"extra {sorted(set(got) - set(want))[:3] if isinstance(got, list) else ''} missing {sorted(set(want) - set(got))[:3] if isinstance(got, list) else ''}",
+                         f"sp-query:{ops}", {"kind": "spatial-history", "ops": ops})
+                    break
+                if want:
+                    ctx.nontrivial.add(("sp", h, step))
+                    L = rng.randint(1, len(want) + 1)
+                    try:
+                        lim = list(b.query_data_ids(["visit", "patch"], explain=False, limit=L))
+                        pairs = {(d["visit"], d["patch"]) for d in lim}
+                        req.append(f"sp query 2000 {L}"), impl.append(f"count={len(lim)}")
+                        if not pairs <= set(want) or len(lim) != min(L, len(want)):
+                            viol(f"after {ops[-4:]}: visit x patch with limit={L} returns {len(lim)} rows ({sorted(pairs - set(want))[:3]} not allowed); {len(want)} pairs exist",
+                                 f"sp-limit:{ops}", {"kind": "spatial-history", "ops": ops, "limit": L})
+                            break
+                    except Exception as e:
+                        viol(f"visit x patch with limit={L} raised {type(e).__name__}: {str(e)[:100]}", f"sp-limit-raise:{ops}", {"kind": "spatial-history", "ops": ops, "limit": L})
+                        break
+        ctx.sample(ops[:8], cap=8)
+        del b
+        import shutil
+        shutil.rmtree(root, ignore_errors=True)
+        if model_ok:
+            got = core.driver(req)
+            lines_total += len(req)
+            for line, m, i in zip(req, got, impl):
+                if m != i:
+                    disagreements += 1
+                    if disagreements <= 5:
+                        ctx.broken.append(f"correspondence (spatial history {h}: {ops[-3:]}): `{line[:80]}` model={m[:160]} implementation={i[:160]}")
+    ctx.extra["spatial_correspondence_lines"] = lines_total
+    ctx.extra["spatial_correspondence_disagreements"] = disagreements
 
 
 def replay(ctx, content):
